@@ -119,3 +119,34 @@ Proof.
     unfold tkey in Hnone. cbn in Hnone. exfalso. unfold matcher in Mm. cbn [canon tk_line] in Mm. rewrite Hnone in Mm.
     destruct k; try discriminate. exact Hel.
 Qed.
+
+(* comments: the whole physical line (terminator removed), at column 1 of its line *)
+Definition comment_at (l : gline) (n : nat) (c : comment) : Prop :=
+  cm_loc c = mk_loc n (Some 1) /\ cm_text c = rstrip_crlf (l_text l) /\ line_startswith l [HASH] = true.
+
+Lemma matcher_comments_at ds k m t0 l t m' : tk_line t0 = Some l ->
+  matcher ds k m t0 = MYes t m' -> Forall (comment_at l (loc_line (tk_loc t0))) (tok_comment k t).
+Proof.
+  intros L. unfold tok_comment. destruct k; try (intros _; apply Forall_nil).
+  unfold matcher. rewrite L. destruct (line_startswith l [HASH]) eqn:St; [|discriminate].
+  intros H. inversion H; subst t m'. clear H. unfold set_matched, get_location. cbn [m_text option_map tk_loc].
+  constructor; [|constructor]. unfold comment_at. cbn. auto.
+Qed.
+
+Theorem ast_comments_located stop m b src d m1 b1 n : wf_ms m -> parse_source stop m b src = POk d m1 b1 n ->
+  Forall (fun c => exists i text, nth_error (py_lines src) i = Some text /\ comment_at (make_line text (S i)) (S i) c) (doc_comments d).
+Proof.
+  intros W H. destruct (source_conservation _ _ _ _ _ _ _ _ W H) as (kts & Hk & Hm & _ & Hc). rewrite Hc.
+  apply Forall_forall. intros e Hin. apply in_flat_map in Hin as [[k t] [Hkt Hel]]. unfold kt_comments in Hel. cbn [fst snd] in Hel.
+  rewrite Forall_forall in Hm. destruct (Hm _ Hkt) as [_ (m0 & m' & _ & Mm)]. cbn [fst snd] in Mm.
+  assert (Hkey : In (tkey t) (source_keys src)).
+  { rewrite <- Hk. apply in_map_iff. exists (k, t). auto. }
+  apply in_source_keys in Hkey as [(i & text & Hn & Hkey)|Hnone].
+  - unfold tkey in Hkey. inversion Hkey as [[K1 K2]]. exists i, text. split; [exact Hn|].
+    assert (A : Forall (comment_at (make_line text (S i)) (S i)) (tok_comment k t)).
+    { rewrite <- K2 at 2. replace (loc_line (tk_loc t)) with (loc_line (tk_loc (canon t))) by reflexivity.
+      eapply (matcher_comments_at dialects k m0 (canon t)); eauto. }
+    rewrite Forall_forall in A. apply A, Hel.
+  - unfold tkey in Hnone. cbn in Hnone. exfalso. unfold matcher in Mm. cbn [canon tk_line] in Mm. rewrite Hnone in Mm.
+    destruct k; try discriminate. exact Hel.
+Qed.
